@@ -630,7 +630,13 @@ where
     // Pre-packed B can only be used when the original RHS is i8. For other
     // RHS types we shift cast to i8 and ignore any prepacked data, since
     // prepacking only happens for i8 RHS inputs.
-    let packed_b = if TypeId::of::<RhsT>() == TypeId::of::<i8>() {
+    //
+    // The zero point of B is applied when B is packed, and pre-packing happens
+    // without knowledge of the zero point. Hence pre-packed data is also
+    // ignored if B has a non-zero zero point.
+    let packed_b = if TypeId::of::<RhsT>() == TypeId::of::<i8>()
+        && b_zero_cast.iter().all(|zero_point| *zero_point == 0)
+    {
         packed_b
     } else {
         None
